@@ -345,6 +345,14 @@ class SpyIterator:
         return "<SpyIterator>"
 
 
+class SpySizedIterator(SpyIterator):
+    """one-shot iterator that also defines __len__ (Sized but not a Collection)"""
+
+    def __len__(self):
+        _log(self, "len")
+        return len(self._d) - self.pos
+
+
 class SpyGenerator(cabc.Generator):
     """generator-protocol object: send / throw / close are all forbidden for a check"""
 
